@@ -43,6 +43,8 @@ pub fn run(prop: &str, world: &World, sc: &Scenario, ctx: &mut RunCtx) {
             })
             .collect()
     };
+    // the interpreter instance kept between transactions when the plan says so
+    let mut held: Option<super::exec::Vm> = None;
     for (i, spec) in sc.txs.iter().enumerate() {
         let ready = match prepare(world, sc.height, sc.gas_price, i, spec) {
             Ok(r) => r,
@@ -52,7 +54,14 @@ pub fn run(prop: &str, world: &World, sc: &Scenario, ctx: &mut RunCtx) {
             }
         };
         let snapshot = storage.clone();
-        let mut vm = new_vm(world, sc.gas_price, storage, Default::default());
+        let mut vm = match held.take() {
+            Some(mut v) => {
+                *v.as_mut() = storage;
+                ctx.stats.inc("probe.tx_on_reused_interpreter");
+                v
+            }
+            None => new_vm(world, sc.gas_price, storage, Default::default()),
+        };
         let inputs: BTreeSet<_> = world.input_contract_ids(spec).into_iter().collect();
         let deployed: BTreeSet<_> = world.contract_ids.iter().copied().filter(|c| !inputs.contains(c)).collect();
 
@@ -223,6 +232,9 @@ pub fn run(prop: &str, world: &World, sc: &Scenario, ctx: &mut RunCtx) {
         } else {
             settle(&mut vm, &snapshot, &outcome);
             storage = take_storage(&mut vm);
+            if sc.plan.reuse_vm {
+                held = Some(vm);
+            }
         }
     }
 }
